@@ -5,6 +5,8 @@ package main
 import (
 	"fmt"
 	"go/types"
+
+	"golang.org/x/tools/go/ssa"
 	"os"
 	"runtime/debug"
 	"sort"
@@ -100,7 +102,9 @@ func (g *Gen) runOnce() {
 		st.cells[key] = Val{T: t}
 		g.assume(st, g.wf(t, et))
 		fr.free[fv] = Val{P: &Ptr{Kind: PCell, Cell: key, RootT: et}, T: g.addrConst("fv_" + fv.Name())}
-		fr.params[fv.Name()] = CV{T: t, Ty: et}
+	}
+	if fn.Parent() != nil {
+		g.bindClosureEnv(fr, st)
 	}
 	// ghost variables
 	for _, gv := range con.Ghosts {
@@ -168,8 +172,12 @@ func (g *Gen) runOnce() {
 			env.vars["result"] = cv
 		}
 	}
-	// ghosts visible at exit
+	// captured variables of a closure are cells: their final value is visible at exit, old() gives the entry value
 	env.fr = nil
+	if len(fn.FreeVars) > 0 {
+		env.fr = fr
+		env.preferParams = true
+	}
 	for _, en := range con.Ensures {
 		goal := env.evalBool(en.Expr)
 		g.oblige(exit, "ensures", g.fnName()+"/ensures/"+en.Label, goal, en, nil)
@@ -337,16 +345,121 @@ func (g *Gen) rejectFrame(msg string) {
 }
 
 func (g *Gen) anchorAsserts(fr *Frame, st *State, local string) {
-	if fr.con == nil || g.specMode {
+	con := g.anchorContract(fr)
+	if con == nil || g.specMode {
 		return
 	}
-	for _, a := range fr.con.Asserts {
-		if a.Store == local {
+	for _, a := range con.Asserts {
+		if a.Store == local && a.Store != "" {
 			env := g.envFor(fr, st)
 			goal := env.evalBool(a.Clause.Expr)
 			g.oblige(st, "assert", fmt.Sprintf("%s/assert after store %s/%s", funcKey(fr.fn), local, a.Clause.Label), goal, a.Clause, nil)
 		}
 	}
+	for _, s := range con.Sets {
+		if s.Store == local && s.Store != "" {
+			g.ghostSet(fr, st, s, nil)
+		}
+	}
+}
+
+// anchorContract: anchors of the function under verification also apply inside inlined closures.
+func (g *Gen) anchorContract(fr *Frame) *FuncContract {
+	if fr.con != nil {
+		return fr.con
+	}
+	if fr.inlined && g.con != nil {
+		return g.con
+	}
+	return nil
+}
+
+func (g *Gen) ghostSet(fr *Frame, st *State, s *AnchorSet, extra map[string]CV) {
+	srt, ok := g.ghostT[s.Ghost]
+	if !ok {
+		panic(cerr("set: unknown ghost variable %s", s.Ghost))
+	}
+	env := g.envFor(fr, st)
+	for k, v := range extra {
+		env.vars[k] = v
+	}
+	v := env.eval(s.Expr)
+	if v.K != nil {
+		v = env.at(v, g.ghostGoT[s.Ghost])
+	}
+	st.cells["ghost:"+s.Ghost] = Val{T: g.define("gh_"+s.Ghost, srt, v.T)}
+}
+
+// sendAnchors: obligations and ghost updates attached to a channel send (Send instruction or select arm).
+func (g *Gen) sendAnchors(fr *Frame, st *State, ch ssa.Value, val Val, elemT types.Type) {
+	con := g.anchorContract(fr)
+	if con == nil || g.specMode {
+		return
+	}
+	name := g.chanName(fr, ch)
+	if name == "" {
+		return
+	}
+	extra := map[string]CV{"sent": {T: val.T, Ty: elemT}}
+	for _, a := range con.Asserts {
+		if a.Send == name {
+			env := g.envFor(fr, st)
+			env.vars["sent"] = extra["sent"]
+			goal := env.evalBool(a.Clause.Expr)
+			g.callSeq["send:"+name+":"+a.Clause.Label]++
+			sfx := ""
+			if n := g.callSeq["send:"+name+":"+a.Clause.Label]; n > 1 {
+				sfx = fmt.Sprintf("#%d", n)
+			}
+			g.oblige(st, "assert", fmt.Sprintf("%s/assert at send %s%s/%s", g.fnName(), name, sfx, a.Clause.Label), goal, a.Clause, nil)
+		}
+	}
+	for _, s := range con.Sets {
+		if s.Send == name {
+			g.ghostSet(fr, st, s, extra)
+		}
+	}
+}
+
+// recvAssume: the channel contract of the function under verification, assumed on a received value.
+func (g *Gen) recvAssume(fr *Frame, st *State, ch ssa.Value, val string, elemT types.Type, ok string) {
+	con := g.anchorContract(fr)
+	if con == nil || g.specMode {
+		return
+	}
+	name := g.chanName(fr, ch)
+	for _, cc := range con.Chans {
+		if cc.Chan == name {
+			env := g.envFor(fr, st)
+			env.vars["recv"] = CV{T: val, Ty: elemT}
+			g.assume(st, implies(ok, env.evalBool(cc.Clause.Expr)))
+			g.note("assumed channel contract on " + name + ": " + cc.Clause.Src)
+		}
+	}
+}
+
+// chanName resolves the source-level name of a channel operand (parameter, local or captured variable).
+func (g *Gen) chanName(fr *Frame, v ssa.Value) string {
+	switch x := v.(type) {
+	case *ssa.Parameter:
+		return x.Name()
+	case *ssa.UnOp:
+		switch a := x.X.(type) {
+		case *ssa.Alloc:
+			return a.Comment
+		case *ssa.FreeVar:
+			return a.Name()
+		case *ssa.FieldAddr:
+			if st, ok := a.X.Type().Underlying().(*types.Pointer); ok {
+				if su, ok := st.Elem().Underlying().(*types.Struct); ok {
+					return su.Field(a.Field).Name()
+				}
+			}
+		}
+	case *ssa.FreeVar:
+		return x.Name()
+	}
+	return ""
 }
 
 // query builds the SMT text of one obligation.
@@ -422,7 +535,21 @@ func discharge(results []*FuncResult, opts solveOpts) {
 				}
 				if res.Status == "sat" && j.o.Expect == "unsat" && len(vals) > 0 {
 					// fetch a model for the inputs from the answering back end
-					m := solve(q, modelTerms(j.g), opts.timeout, res.Backend)
+					var terms []string
+					for _, t := range modelTerms(j.g) {
+						syms := map[string]bool{}
+						symbols(t, syms)
+						okT := true
+						for sname := range syms {
+							if strings.HasPrefix(sname, "p_") && !strings.Contains(q, "declare-const "+sname+" ") {
+								okT = false
+							}
+						}
+						if okT {
+							terms = append(terms, t)
+						}
+					}
+					m := solve(q, terms, opts.timeout, res.Backend)
 					if m.Status == "sat" {
 						res.Model = m.Model
 					}
@@ -516,4 +643,135 @@ func generateLemma(P *Program, con *FuncContract) (res *FuncResult) {
 	}
 	res.Obls = g.obls
 	return
+}
+
+// callAnchors: "assert at call NAME" obligations of the function under verification,
+// evaluated in the caller's state with the callee's parameter names bound to the arguments.
+func (g *Gen) callAnchors(fr *Frame, st *State, name string, callee *ssa.Function, args []Val) {
+	con := g.anchorContract(fr)
+	if con == nil || g.specMode || name == "" {
+		return
+	}
+	for _, s := range con.Sets {
+		if s.Call == name {
+			g.ghostSet(fr, st, s, nil)
+		}
+	}
+	for _, a := range con.Asserts {
+		if a.Call != name {
+			continue
+		}
+		env := g.envFor(fr, st)
+		if callee != nil {
+			for i, p := range callee.Params {
+				if i < len(args) && args[i].T != "" {
+					env.vars[p.Name()] = CV{T: args[i].T, Ty: p.Type()}
+				}
+			}
+		}
+		goal := env.evalBool(a.Clause.Expr)
+		g.callSeq["callanchor:"+name+":"+a.Clause.Label]++
+		n := g.callSeq["callanchor:"+name+":"+a.Clause.Label]
+		g.oblige(st, "assert", fmt.Sprintf("%s/assert at call %s#%d/%s", g.fnName(), name, n, a.Clause.Label), goal, a.Clause, nil)
+	}
+}
+
+// bindClosureEnv: a closure verified on its own shares the environment record of its parent:
+// every parent variable captured by some closure becomes a symbolic cell; captured variables
+// holding sibling closures are resolved statically so that calls through them use the
+// sibling's contract.
+func (g *Gen) bindClosureEnv(fr *Frame, st *State) {
+	fn := fr.fn
+	parent := fn.Parent()
+	fr.envCells = map[string]interface{}{}
+	fr.envTypes = map[string]types.Type{}
+	// cells of this closure's own free variables, by name
+	own := map[string]interface{}{}
+	for _, fv := range fn.FreeVars {
+		if b, ok := fr.free[fv]; ok && b.P != nil && b.P.Kind == PCell {
+			own[fv.Name()] = b.P.Cell
+		}
+	}
+	captured := map[*ssa.Alloc]bool{}
+	for _, b := range parent.Blocks {
+		for _, in := range b.Instrs {
+			if mc, ok := in.(*ssa.MakeClosure); ok {
+				for _, bd := range mc.Bindings {
+					if a, ok := bd.(*ssa.Alloc); ok {
+						captured[a] = true
+					}
+				}
+			}
+		}
+	}
+	var allocs []*ssa.Alloc
+	for a := range captured {
+		allocs = append(allocs, a)
+	}
+	sort.Slice(allocs, func(i, j int) bool { return allocs[i].Pos() < allocs[j].Pos() })
+	for _, a := range allocs {
+		name := a.Comment
+		et := a.Type().(*types.Pointer).Elem()
+		if key, ok := own[name]; ok {
+			fr.envCells[name] = key
+			fr.envTypes[name] = et
+			continue
+		}
+		if _, isSig := et.Underlying().(*types.Signature); isSig {
+			continue
+		}
+		key := "free:" + name
+		srt := g.sortOf(et)
+		g.ghostT[key] = srt
+		t := "env_" + mangle(name)
+		if !g.sc.has(t) {
+			g.sc.add([]string{t}, fmt.Sprintf("(declare-const %s %s)", t, srt))
+		}
+		st.cells[key] = Val{T: t}
+		g.assume(st, g.wf(t, et))
+		g.assume(st, g.allocatedIn(t, et, "top0", 0))
+		fr.envCells[name] = key
+		fr.envTypes[name] = et
+	}
+	// captured variables that hold sibling closures
+	resolve := func(a *ssa.Alloc) *ssa.Function {
+		var found *ssa.Function
+		n := 0
+		for _, ref := range *a.Referrers() {
+			if s, ok := ref.(*ssa.Store); ok && s.Addr == a {
+				n++
+				if mc, ok := s.Val.(*ssa.MakeClosure); ok {
+					found = mc.Fn.(*ssa.Function)
+				}
+			}
+		}
+		if n == 1 {
+			return found
+		}
+		return nil
+	}
+	mkClosure := func(sib *ssa.Function) *Closure {
+		c := &Closure{Fn: sib}
+		for _, sfv := range sib.FreeVars {
+			if key, ok := fr.envCells[sfv.Name()]; ok {
+				c.Bindings = append(c.Bindings, Val{P: &Ptr{Kind: PCell, Cell: key, RootT: sfv.Type().(*types.Pointer).Elem()}, T: g.addrConst("fv_" + sfv.Name())})
+			} else {
+				c.Bindings = append(c.Bindings, Val{})
+			}
+		}
+		return c
+	}
+	for _, a := range allocs {
+		et := a.Type().(*types.Pointer).Elem()
+		if _, isSig := et.Underlying().(*types.Signature); !isSig {
+			continue
+		}
+		sib := resolve(a)
+		if sib == nil {
+			continue
+		}
+		if key, ok := own[a.Comment]; ok {
+			st.cells[key] = Val{Clo: mkClosure(sib), T: g.addrConst("clo_" + sib.Name())}
+		}
+	}
 }
